@@ -120,6 +120,8 @@ struct SysCase {
     envlen: usize,
     /// (count, length) groups of input arguments
     groups: Vec<(usize, usize)>,
+    /// arguments made of two-byte characters (same byte lengths)
+    mb: bool,
 }
 
 fn run_xargs_sys(ctx: &Ctx, c: &SysCase) -> (String, String) {
@@ -158,7 +160,7 @@ fn run_xargs_sys(ctx: &Ctx, c: &SysCase) -> (String, String) {
             for _ in 0..count {
                 let mut a = if len >= 8 { format!("{:08}", idx).into_bytes() } else { vec![] };
                 while a.len() < len {
-                    a.push(b'x');
+                    if c.mb && a.len() + 2 <= len { a.extend_from_slice("é".as_bytes()); } else { a.push(b'x'); }
                 }
                 a.push(0);
                 if si.write_all(&a).is_err() {
@@ -222,22 +224,25 @@ pub fn run_prop(ctx: &Ctx, sink: &mut Sink) {
     probe_kernel(sink, ctx);
     // corpus: the two defects repaired by the fix: commit
     let mut cases = vec![
-        SysCase { stack: UNLIMITED, n: 0, s: 0, envc: 0, envlen: 0, groups: vec![(400_000, 6)] },
-        SysCase { stack: 8 << 20, n: 0, s: 0, envc: 0, envlen: 0, groups: vec![(3, 10), (1, 200_000), (3, 10)] },
-        SysCase { stack: 256 << 10, n: 0, s: 0, envc: 0, envlen: 0, groups: vec![(100_000, 1)] },
+        SysCase { mb: false, stack: UNLIMITED, n: 0, s: 0, envc: 0, envlen: 0, groups: vec![(400_000, 6)] },
+        SysCase { mb: false, stack: 8 << 20, n: 0, s: 0, envc: 0, envlen: 0, groups: vec![(3, 10), (1, 200_000), (3, 10)] },
+        SysCase { mb: false, stack: 256 << 10, n: 0, s: 0, envc: 0, envlen: 0, groups: vec![(100_000, 1)] },
         // the per-argument limit, byte-exact (an argument plus its NUL may take 32 pages)
-        SysCase { stack: 8 << 20, n: 0, s: 0, envc: 0, envlen: 0, groups: vec![(3, 10), (1, 131_070), (3, 10)] },
-        SysCase { stack: 8 << 20, n: 0, s: 0, envc: 0, envlen: 0, groups: vec![(3, 10), (1, 131_071), (3, 10)] },
-        SysCase { stack: 8 << 20, n: 0, s: 0, envc: 0, envlen: 0, groups: vec![(3, 10), (1, 131_072), (3, 10)] },
-        SysCase { stack: UNLIMITED, n: 0, s: 0, envc: 5, envlen: 40, groups: vec![(1, 131_072)] },
-        SysCase { stack: 8 << 20, n: 2, s: 0, envc: 0, envlen: 0, groups: vec![(2, 131_071), (1, 131_073), (1, 8)] },
+        SysCase { mb: false, stack: 8 << 20, n: 0, s: 0, envc: 0, envlen: 0, groups: vec![(3, 10), (1, 131_070), (3, 10)] },
+        SysCase { mb: false, stack: 8 << 20, n: 0, s: 0, envc: 0, envlen: 0, groups: vec![(3, 10), (1, 131_071), (3, 10)] },
+        SysCase { mb: false, stack: 8 << 20, n: 0, s: 0, envc: 0, envlen: 0, groups: vec![(3, 10), (1, 131_072), (3, 10)] },
+        SysCase { mb: false, stack: UNLIMITED, n: 0, s: 0, envc: 5, envlen: 40, groups: vec![(1, 131_072)] },
+        SysCase { mb: false, stack: 8 << 20, n: 2, s: 0, envc: 0, envlen: 0, groups: vec![(2, 131_071), (1, 131_073), (1, 8)] },
         // thousands of small environment variables: their pointers count as much as their bytes
-        SysCase { stack: 8 << 20, n: 0, s: 0, envc: 3000, envlen: 10, groups: vec![(300_000, 1)] },
-        SysCase { stack: 512 << 10, n: 0, s: 0, envc: 1500, envlen: 9, groups: vec![(80_000, 1)] },
+        SysCase { mb: false, stack: 8 << 20, n: 0, s: 0, envc: 3000, envlen: 10, groups: vec![(300_000, 1)] },
+        SysCase { mb: false, stack: 512 << 10, n: 0, s: 0, envc: 1500, envlen: 9, groups: vec![(80_000, 1)] },
         // a large -s does not replace the system limits: argv pointers and the per-argument limit still apply
-        SysCase { stack: 8 << 20, n: 0, s: 1_000_000, envc: 0, envlen: 0, groups: vec![(300_000, 1)] },
-        SysCase { stack: 8 << 20, n: 0, s: 200_000, envc: 0, envlen: 0, groups: vec![(3, 10), (1, 150_000), (3, 10)] },
-        SysCase { stack: 8 << 20, n: 0, s: 1_900_000, envc: 0, envlen: 0, groups: vec![(2000, 900)] },
+        SysCase { mb: false, stack: 8 << 20, n: 0, s: 1_000_000, envc: 0, envlen: 0, groups: vec![(300_000, 1)] },
+        SysCase { mb: false, stack: 8 << 20, n: 0, s: 200_000, envc: 0, envlen: 0, groups: vec![(3, 10), (1, 150_000), (3, 10)] },
+        SysCase { mb: false, stack: 8 << 20, n: 0, s: 1_900_000, envc: 0, envlen: 0, groups: vec![(2000, 900)] },
+        // multi-byte arguments: the budget counts bytes, not characters
+        SysCase { mb: true, stack: 8 << 20, n: 0, s: 0, envc: 0, envlen: 0, groups: vec![(2500, 2000)] },
+        SysCase { mb: true, stack: 8 << 20, n: 0, s: 0, envc: 0, envlen: 0, groups: vec![(3, 10), (1, 140_000), (3, 10)] },
     ];
     let nrand = if ctx.thorough { 70 } else { 6 };
     for _ in 0..nrand {
@@ -257,7 +262,7 @@ pub fn run_prop(ctx: &Ctx, sink: &mut Sink) {
             1 => (0, rng.range(50_000, 120_000)),
             _ => (0, 0),
         };
-        cases.push(SysCase { stack, n, s, envc, envlen, groups });
+        cases.push(SysCase { mb: rng.chance(1, 4), stack, n, s, envc, envlen, groups });
     }
     for c in &cases {
         let (req, imp) = run_xargs_sys(ctx, c);
